@@ -693,3 +693,8 @@ CHECKS["C09"]["required_classes"]["all"] += ["acknowledged-change-after-the-base
 CHECKS["C15"]["required_classes"]["all"] += ["traced-password-check-of-an-upgradeable-record-with-upgrades-off"]
 CHECKS["C03"]["jobs"].append(J("repointed-base", VSTORE, "TestC03RepointedBase", {"shards": 2, "checks": 120}, {"shards": 8, "checks": 5000}))
 CHECKS["C03"]["required_classes"]["all"] += ["base-directory-switch:relative-link", "base-directory-switch:directory-replaced"]
+# "every refused HTTP request performs no file-system mutation": the web-API sequences of C06 (all credential kinds, body shapes and
+# HTTP methods), judged here only on that clause
+CHECKS["C15"]["jobs"].append(J("refused-web-requests", AGENT, "TestC06WebAPI", {"shards": 2, "checks": 60}, {"shards": 8, "checks": 5000}, toolchain="go126",
+                               only=r"refused request \(\d+\) changed the store"))
+CHECKS["C15"]["required_classes"]["all"] += ["management-request-with-method-other-than-POST"]
